@@ -532,7 +532,9 @@ class Pipeline:
             assert cache is not None
             cache_key = compute_cache_key(
                 func.output_name,
-                self._func_defaults(func) | func._bound | flat_scope_kwargs,
+                # The values that the root arguments take (a bound value of `func` itself is no
+                # root argument: a same-named root argument feeds *other* functions)
+                self._func_defaults(func) | flat_scope_kwargs,
                 root_args,
             )
             if any(k in self.output_to_func for k in flat_scope_kwargs):
